@@ -105,6 +105,14 @@ def producible(t: str, ev: Event, reserved: frozenset[str], endpoint_reserved: s
     return could_be(ev.root, m, reserved, endpoint_reserved, template)
 
 
+def writer(site: str, tn: str) -> str:
+    """Who writes a hole, as construct keys name it.  A hole is written either by the text of the analysed template tn or by a macro
+    of another template that tn reaches (an import, the dispatch over the property templates): the other template's macro is named
+    - it is the interface through which that text is obtained -, while everything tn writes itself is one writer: how a template
+    divides its own text into local macros (one extracted, one inlined, renamed) is layout, like the private helpers of a function."""
+    return f"{tn}::<top>" if site.split("::")[0] == tn else site
+
+
 def _own_fixed_binds(sc: Scope, t: str) -> bool:
     return any((not e.hole) and e.kind in ("BIND", "PARAM") and e.name == t for e in sc.events)
 
@@ -247,9 +255,9 @@ def spelling_roles(rep: Report, tn: str, scopes: "list[Scope]") -> tuple[int, in
     literal - and the document's own name never where code is written.  Decided on the skeleton, so however the text reaches the
     line (inline, through `set`, concatenation, a helper macro, a call block)."""
     evs = [(sc, e) for sc in scopes for e in sc.events]
-    sites = sorted({e.site for _sc, e in evs if e.hole and e.site and e.kind in CODE_KINDS + ("STRHOLE",)})
+    sites = sorted({writer(e.site, tn) for _sc, e in evs if e.hole and e.site and e.kind in CODE_KINDS + ("STRHOLE",)})
     for site in sites:
-        bad = [(sc, e) for sc, e in evs if e.kind == "STRHOLE" and e.site == site]
+        bad = [(sc, e) for sc, e in evs if e.kind == "STRHOLE" and writer(e.site, tn) == site]
         key = f"{tn}::{site}::identifier-in-string"
         if not bad:
             rep.ok("R18.3", key, f"python names written in {site}", "stand in code, never inside a string literal")
@@ -938,7 +946,7 @@ def run(rep: Report, ctx: Any) -> str:
                 tb = [e for e in sc.events if not e.hole and e.kind in ("BIND", "PARAM") and e.name == t]
                 if any(e.kind == "PARAM" for e in tb) and any(h.kind == "PARAM" for h in hb):
                     h0 = next(h for h in hb if h.kind == "PARAM")
-                    found[f"duplicate-parameter@{h0.site}"] = h0
+                    found[f"duplicate-parameter@{writer(h0.site, tn)}"] = h0
                 binds = sorted(hb + tb, key=lambda e: e.pos)
                 for r in evs:
                     if r.kind != "READ":
@@ -946,13 +954,13 @@ def run(rep: Report, ctx: Any) -> str:
                     if not r.hole and r.name == t:
                         prev = [b for b in binds if b.pos < r.pos]
                         if prev and prev[-1].hole:
-                            found.setdefault(f"template-reads-document-value@{prev[-1].site}", r)
+                            found.setdefault(f"template-reads-document-value@{writer(prev[-1].site, tn)}", r)
                         elif not prev and not tb:
-                            found.setdefault(f"unbound-or-shadowed-global@{hb[0].site}", r)
+                            found.setdefault(f"unbound-or-shadowed-global@{writer(hb[0].site, tn)}", r)
                     elif r.hole and producible(t, r, reserved, endpoint_reserved, tn):
                         prev = [b for b in binds if b.pos < r.pos]
                         if prev and not prev[-1].hole and any(b.hole for b in prev):
-                            found.setdefault(f"document-value-clobbered@{r.site}", r)
+                            found.setdefault(f"document-value-clobbered@{writer(r.site, tn)}", r)
                 if not found:
                     rep.ok("R18.1", base, f"`{t}` producible", "collision harmless (no read sees the other side's binding)")
                 for kind, ev in sorted(found.items()):
